@@ -98,10 +98,16 @@ def analyse_from_str(F, f, rep, R, module):
         for bi, si, s in g.stmts():
             if s[0] == "=" and s[2][0] == "agg" and s[2][1].get("variant") == "Err" and s[2][1].get("adt", "").endswith("result::Result") and g.d.get("ret", "").startswith("std::result::Result<"):
                 # allowed only as the Err arm of a numeric parse result (`match text.parse() { Err(_) => Err(..) }`)
-                from_parse = False
+                from_parse = False; no_match = False
                 for d, pol, dd in mir.guards_of(g, bi):
                     if d[0] == "discr" and "ParseIntError" in str(d[2]) and isinstance(pol, tuple) and (("Err" in pol[1]) if pol[0] == "in" else ("Ok" in pol[1])): from_parse = True
-                if from_parse:
+                    # `let Some(caps) = REGEX.captures(s) else { return Err(..) }`: the None arm of the match itself
+                    if d[0] == "discr" and "Option<regex::Captures" in str(d[2]) and isinstance(pol, tuple) and (("None" in pol[1]) if pol[0] == "in" else ("Some" in pol[1])):
+                        if any(o.kind == "call" and mir.call_matches(o.fn.blocks[o.data]["t"], ("regex::Regex::captures",)) for o in mir.trace_place(g, d[1], transparent=())): no_match = True
+                if no_match:
+                    n_nomatch += 1
+                    rep.ok(R + ".3", "rejection: no match (Err built on the None arm of Regex::captures)", nontrivial_key="nomatch-direct%s%d" % (g.path, bi))
+                elif from_parse:
                     rep.ok(R + ".3", "Err built on the failure arm of a numeric parse", nontrivial_key="derr%s%d" % (g.path, bi))
                 else:
                     rep.bad(R + ".3", "extra-rejection:direct-Err:%s" % g.path.rsplit("::", 1)[-1],
@@ -416,11 +422,11 @@ def path_facts(F, fn, path, depth=0):
     """alternatives (list of lists) of atomic call facts known on `path`: (method, consts, truth, closure_pred).
     A call of a local bool helper is replaced by the facts of each of its paths returning that truth value."""
     sp = mir.SymPath(fn, path)
+    if not sp.feasible(): return []
     alts = [[]]
-    for d, (rel, vals), b in sp.conds:
-        if d[0] != "call": continue
+    for d, truth, b in sp.facts():
+        if not isinstance(truth, bool) or d[0] != "call": continue
         t = fn.blocks[d[3]]["t"] if len(d) > 3 and isinstance(d[3], int) else None
-        truth = not ((rel == "eq" and 0 in vals) or (rel == "ne" and 0 not in vals))
         name = str(d[1]).rsplit("::", 1)[-1]
         g = F.fn(str(d[1]))
         if g is not None and g.d.get("ret") == "bool" and depth < 3 and not mir.has_loop(g):
@@ -579,17 +585,39 @@ def semver_separators(F, rep, groups):
         for bi, pieces in mir.fmt_templates(g):
             tmpl.append((g.path, pieces))
         for bi, t in g.calls():
-            if mir.call_matches(t, ("::join",)):
+            if (mir.callee(t) or "").endswith("]>::join"):
                 joins.append((g.path, [mir.const_arg(g, a) for a in t[2][1:]]))
+    def pushed_literals(g):
+        """string / char constants appended with push / push_str in g (the other way of writing a separator)"""
+        out = []
+        for bi, t in g.calls():
+            c = mir.callee(t) or ""
+            if (c.endswith("String::push") or c.endswith("String::push_str")) and len(t[2]) > 1:
+                v = mir.const_arg(g, t[2][1])
+                if isinstance(v, str): out.append(v)
+        return out
     rel = [p for _, p in tmpl if sum(1 for x in p if isinstance(x, tuple)) == 3]
     if rel and all([x for x in p if isinstance(x, str)] == [".", "."] for p in rel):
         rep.ok(rule, "release template is {}.{}.{}", sample=str(rel[0]), nontrivial_key="rel")
+    elif rel:
+        rep.bad(rule, "release-template", "the major.minor.patch template is not three arguments joined by '.': %r" % (rel,), d.where())
     else:
-        rep.bad(rule, "release-template", "the major.minor.patch template is not three arguments joined by '.': %r" % (rel or tmpl), d.where())
-    if len(joins) >= 2 and all(j[1] == ["."] for j in joins):
+        frv = [g for g in reach if g.path.endswith("format_release_version")]
+        lits = pushed_literals(frv[0]) if frv else None
+        if lits == [".", "."]: rep.ok(rule, "release built by pushing '.' between the three numbers", nontrivial_key="rel")
+        elif lits: rep.bad(rule, "release-template", "major.minor.patch is assembled with the literals %r, expected '.' twice" % (lits,), d.where())
+        else: rep.undecided(rule, "release-template-shape", "how major.minor.patch is assembled is not recognised", d.where())
+    joins = [j for j in joins if j[1]]
+    if joins and all(j[1] == ["."] for j in joins):
         rep.ok(rule, "identifier lists joined by '.' (%d sites)" % len(joins), nontrivial_key="join")
-    else:
+    elif joins:
         rep.bad(rule, "join-separator", "pre-release / build identifiers are not joined by '.': %r" % joins, d.where())
+    else:
+        lists = [g for g in reach if g.path.endswith("format_pre_release_identifiers") or g.path.endswith("format_build_metadata")]
+        lits = [x for g in lists for x in pushed_literals(g)]
+        if lits and set(lits) == {"."}: rep.ok(rule, "identifier lists built by pushing '.' between items", nontrivial_key="join")
+        elif lits: rep.bad(rule, "join-separator", "pre-release / build identifiers are separated by %r, expected '.'" % sorted(set(lits)), d.where())
+        else: rep.undecided(rule, "join-separator-shape", "how the identifier lists are joined is not recognised", d.where())
 
 def check_parity(F, rep, rule, tyname, anchor):
     """run_check_command decides validity of format X only by <X as FromStr>::from_str on the unmodified args.version"""
